@@ -1,8 +1,1056 @@
-//! engine `ledger` (stub — to be written)
+//! engine `ledger` — C09: every block obtained from a plugged-in allocator is returned to it
+//! exactly once.
+//!
+//! Part 1 (this file, top): a counting `BrotliAlloc` (`CAlloc`).  Every instance has an id and its
+//! own ledger; a block (`CBlock<T>`) remembers the ledger that produced it.  `free_cell` through
+//! another instance = "foreign"; a non-empty block that is dropped without `free_cell` = "dropped"
+//! (with a real pool allocator that memory is gone for good); still live at the end of an entry
+//! point = "leak".  Double free cannot be expressed in safe Rust (blocks are moved), it is checked
+//! on the C ABI where blocks are raw pointers (`FfiSession`).
+//!
+//! `bvh ledger d9`  prints the minimal reproductions of the known defects (no files written).
+use crate::prng::Rng;
 use crate::util::*;
+use alloc_no_stdlib::{Allocator, SliceWrapper, SliceWrapperMut};
+use brotli::enc::backward_references::UnionHasher;
+use brotli::enc::encode::{BrotliEncoderOperation, BrotliEncoderParameter, BrotliEncoderStateStruct};
+use brotli::enc::BrotliAlloc;
+use brotli_decompressor::ffi::interface::c_void;
+use std::collections::{BTreeMap, HashMap};
+use std::sync::atomic::{AtomicU32, Ordering};
+use std::sync::{Arc, Mutex};
+
+// ---------------------------------------------------------------------------------------------
+// counting allocator
+// ---------------------------------------------------------------------------------------------
+
+#[derive(Clone, Debug)]
+pub struct Ev {
+    pub kind: char,      // 'A' alloc, 'F' free, 'X' free through a foreign allocator, 'D' dropped without free
+    pub via: u32,        // allocator instance the call went through (for 'D': the origin)
+    pub origin: u32,     // allocator instance that produced the block
+    pub bid: u64,        // block number within the origin
+    pub ty: &'static str,
+    pub len: usize,      // elements
+    pub ptr: usize,
+}
+#[derive(Clone, Debug)]
+pub struct Blk {
+    pub ptr: usize,
+    pub len: usize,
+    pub esz: usize,
+    pub ty: &'static str,
+}
+#[derive(Default)]
+pub struct Inner {
+    pub id: u32,
+    pub next_bid: u64,
+    pub live: BTreeMap<u64, Blk>,
+    pub events: Vec<Ev>,
+    pub n_alloc: u64,
+    pub n_free: u64,
+    pub n_foreign: u64, // blocks of THIS ledger freed through another instance, or foreign blocks freed through this one
+    pub n_dropped: u64, // blocks of this ledger dropped without free_cell
+    pub bytes_live: usize,
+    pub bytes_peak: usize,
+    pub log_events: bool,
+}
+#[derive(Clone)]
+pub struct Ledger(pub Arc<Mutex<Inner>>);
+static NEXT_ALLOC_ID: AtomicU32 = AtomicU32::new(1);
+impl Ledger {
+    pub fn new() -> Ledger {
+        let mut i = Inner::default();
+        i.id = NEXT_ALLOC_ID.fetch_add(1, Ordering::SeqCst);
+        i.log_events = true;
+        Ledger(Arc::new(Mutex::new(i)))
+    }
+    pub fn id(&self) -> u32 { self.0.lock().unwrap().id }
+    pub fn live_count(&self) -> usize { self.0.lock().unwrap().live.len() }
+    pub fn live_bytes(&self) -> usize { self.0.lock().unwrap().bytes_live }
+    pub fn live_blocks(&self) -> Vec<(u64, Blk)> { self.0.lock().unwrap().live.iter().map(|(k, v)| (*k, v.clone())).collect() }
+    pub fn counts(&self) -> (u64, u64, u64, u64) { let g = self.0.lock().unwrap(); (g.n_alloc, g.n_free, g.n_foreign, g.n_dropped) }
+    pub fn events_len(&self) -> usize { self.0.lock().unwrap().events.len() }
+    pub fn events_from(&self, k: usize) -> Vec<Ev> { self.0.lock().unwrap().events[k..].to_vec() }
+    pub fn peak(&self) -> usize { self.0.lock().unwrap().bytes_peak }
+}
+pub struct CAlloc { pub led: Ledger }
+impl CAlloc {
+    pub fn new() -> (CAlloc, Ledger) { let l = Ledger::new(); (CAlloc { led: l.clone() }, l) }
+}
+pub struct CBlock<T> {
+    data: Box<[T]>,
+    origin: Option<Ledger>,
+    bid: u64,
+}
+impl<T> Default for CBlock<T> {
+    fn default() -> Self { CBlock { data: Vec::new().into_boxed_slice(), origin: None, bid: 0 } }
+}
+impl<T> SliceWrapper<T> for CBlock<T> { fn slice(&self) -> &[T] { &self.data } }
+impl<T> SliceWrapperMut<T> for CBlock<T> { fn slice_mut(&mut self) -> &mut [T] { &mut self.data } }
+impl<T> Drop for CBlock<T> {
+    fn drop(&mut self) {
+        if let Some(o) = self.origin.take() {
+            let mut g = o.0.lock().unwrap();
+            if let Some(b) = g.live.remove(&self.bid) {
+                g.bytes_live -= b.len * b.esz;
+                g.n_dropped += 1;
+                let id = g.id;
+                if g.log_events { g.events.push(Ev { kind: 'D', via: id, origin: id, bid: self.bid, ty: b.ty, len: b.len, ptr: b.ptr }); }
+            }
+        }
+    }
+}
+impl<T: Clone + Default> Allocator<T> for CAlloc {
+    type AllocatedMemory = CBlock<T>;
+    fn alloc_cell(&mut self, len: usize) -> CBlock<T> {
+        if len == 0 { return CBlock::default(); }
+        let data = vec![T::default(); len].into_boxed_slice();
+        let mut g = self.led.0.lock().unwrap();
+        let bid = g.next_bid;
+        g.next_bid += 1;
+        let ptr = data.as_ptr() as usize;
+        let ty = core::any::type_name::<T>();
+        let esz = core::mem::size_of::<T>();
+        g.live.insert(bid, Blk { ptr, len, esz, ty });
+        g.n_alloc += 1;
+        g.bytes_live += len * esz;
+        if g.bytes_live > g.bytes_peak { g.bytes_peak = g.bytes_live; }
+        let id = g.id;
+        if g.log_events { g.events.push(Ev { kind: 'A', via: id, origin: id, bid, ty, len, ptr }); }
+        drop(g);
+        CBlock { data, origin: Some(self.led.clone()), bid }
+    }
+    fn free_cell(&mut self, mut b: CBlock<T>) {
+        let o = match b.origin.take() { Some(o) => o, None => return }; // empty / default block
+        let my = self.led.id();
+        let same = Arc::ptr_eq(&o.0, &self.led.0);
+        let mut g = o.0.lock().unwrap();
+        let oid = g.id;
+        if let Some(blk) = g.live.remove(&b.bid) {
+            g.bytes_live -= blk.len * blk.esz;
+            if same { g.n_free += 1; } else { g.n_foreign += 1; }
+            if g.log_events { g.events.push(Ev { kind: if same { 'F' } else { 'X' }, via: my, origin: oid, bid: b.bid, ty: blk.ty, len: blk.len, ptr: blk.ptr }); }
+        }
+        drop(g);
+        if !same {
+            let mut h = self.led.0.lock().unwrap();
+            h.n_foreign += 1;
+            if h.log_events { h.events.push(Ev { kind: 'X', via: my, origin: oid, bid: b.bid, ty: core::any::type_name::<T>(), len: b.data.len(), ptr: b.data.as_ptr() as usize }); }
+        }
+    }
+}
+impl BrotliAlloc for CAlloc {}
+
+/// short type tag for lines
+pub fn tytag(ty: &str) -> &str {
+    match ty.rsplit("::").next().unwrap_or(ty) { x => x }
+}
+
+// ---------------------------------------------------------------------------------------------
+// C ABI: counting alloc_func / free_func
+// ---------------------------------------------------------------------------------------------
+
+#[derive(Default)]
+pub struct FfiState {
+    pub live: HashMap<usize, (u32, usize, u64)>, // ptr -> (owner opaque id, bytes, serial)
+    pub n_alloc: u64,
+    pub n_free: u64,
+    pub bad_free: Vec<String>, // double / unknown / through another opaque
+    pub bytes_live: usize,
+    pub bytes_peak: usize,
+    pub log: Vec<(char, u32, usize)>, // kind, opaque id, bytes
+}
+pub struct FfiOpaque { pub id: u32, pub st: Arc<Mutex<FfiState>> }
+pub struct FfiSession { pub st: Arc<Mutex<FfiState>>, pub opaques: Vec<Box<FfiOpaque>> }
+impl FfiSession {
+    pub fn new(n: usize) -> FfiSession {
+        let st = Arc::new(Mutex::new(FfiState::default()));
+        FfiSession { opaques: (0..n).map(|i| Box::new(FfiOpaque { id: i as u32, st: st.clone() })).collect(), st }
+    }
+    pub fn opaque(&self, i: usize) -> *mut c_void { &*self.opaques[i] as *const FfiOpaque as *mut c_void }
+    pub fn live(&self) -> (usize, usize) { let g = self.st.lock().unwrap(); (g.live.len(), g.bytes_live) }
+    pub fn live_of(&self, id: u32) -> usize { self.st.lock().unwrap().live.values().filter(|v| v.0 == id).count() }
+    /// release what the code under test leaked (so that a long run does not run out of memory)
+    pub fn reclaim(&self) {
+        let mut g = self.st.lock().unwrap();
+        let l: Vec<(usize, usize)> = g.live.iter().map(|(p, v)| (*p, v.1)).collect();
+        for (p, sz) in l { unsafe { std::alloc::dealloc(p as *mut u8, std::alloc::Layout::from_size_align(sz.max(1), 64).unwrap()) }; }
+        g.live.clear();
+        g.bytes_live = 0;
+    }
+}
+pub extern "C" fn ffi_alloc(opaque: *mut c_void, size: usize) -> *mut c_void {
+    let o = unsafe { &*(opaque as *const FfiOpaque) };
+    let p = unsafe { std::alloc::alloc_zeroed(std::alloc::Layout::from_size_align(size.max(1), 64).unwrap()) };
+    let mut g = o.st.lock().unwrap();
+    let serial = g.n_alloc;
+    g.live.insert(p as usize, (o.id, size, serial));
+    g.n_alloc += 1;
+    g.bytes_live += size;
+    if g.bytes_live > g.bytes_peak { g.bytes_peak = g.bytes_live; }
+    g.log.push(('A', o.id, size));
+    p as *mut c_void
+}
+pub extern "C" fn ffi_free(opaque: *mut c_void, ptr: *mut c_void) {
+    if ptr.is_null() { return; }
+    let o = unsafe { &*(opaque as *const FfiOpaque) };
+    let mut g = o.st.lock().unwrap();
+    match g.live.get(&(ptr as usize)).cloned() {
+        None => { g.bad_free.push(format!("free of unknown or already freed pointer through opaque {}", o.id)); }
+        Some((owner, sz, _serial)) => {
+            if owner != o.id { g.bad_free.push(format!("block of opaque {} ({} bytes) freed through opaque {}", owner, sz, o.id)); }
+            g.live.remove(&(ptr as usize));
+            g.n_free += 1;
+            g.bytes_live -= sz;
+            g.log.push(('F', o.id, sz));
+            unsafe { std::alloc::dealloc(ptr as *mut u8, std::alloc::Layout::from_size_align(sz.max(1), 64).unwrap()) };
+        }
+    }
+}
+
+// ---------------------------------------------------------------------------------------------
+// minimal reproductions (bvh ledger d9)
+// ---------------------------------------------------------------------------------------------
+
+fn sample_text(n: usize) -> Vec<u8> {
+    let words: [&[u8]; 8] = [b"the ", b"quick ", b"brown ", b"fox ", b"jumps ", b"over ", b"lazy ", b"dog. "];
+    let mut r = Rng::new(12345);
+    let mut v = Vec::with_capacity(n + 8);
+    while v.len() < n { v.extend_from_slice(words[r.below(8) as usize]); }
+    v.truncate(n);
+    v
+}
+
+pub fn d9_ffi_stream(quality: u32, lgwin: u32, n: usize) -> (usize, usize, u64, u64) {
+    use brotli::ffi::compressor::*;
+    let ses = FfiSession::new(1);
+    let input = sample_text(n);
+    let mut out = vec![0u8; n + 1024];
+    unsafe {
+        let st = BrotliEncoderCreateInstance(Some(ffi_alloc), Some(ffi_free), ses.opaque(0));
+        BrotliEncoderSetParameter(st, BrotliEncoderParameter::BROTLI_PARAM_QUALITY, quality);
+        BrotliEncoderSetParameter(st, BrotliEncoderParameter::BROTLI_PARAM_LGWIN, lgwin);
+        let mut avail_in = input.len();
+        let mut next_in = input.as_ptr();
+        let mut avail_out = out.len();
+        let mut next_out = out.as_mut_ptr();
+        let mut total = 0usize;
+        let r = BrotliEncoderCompressStream(st, BrotliEncoderOperation::BROTLI_OPERATION_FINISH, &mut avail_in, &mut next_in, &mut avail_out, &mut next_out, &mut total);
+        assert!(r == 1 && BrotliEncoderIsFinished(st) == 1);
+        BrotliEncoderDestroyInstance(st);
+    }
+    let (cnt, bytes) = ses.live();
+    let g = ses.st.lock().unwrap();
+    let r = (cnt, bytes, g.n_alloc, g.n_free);
+    drop(g);
+    ses.reclaim();
+    r
+}
+
+pub fn d9_ffi_multi1(quality: u32, lgwin: u32, n: usize) -> (usize, usize, u64, u64) {
+    use brotli::ffi::multicompress::*;
+    let ses = FfiSession::new(1);
+    let input = sample_text(n);
+    let mut out = vec![0u8; BrotliEncoderMaxCompressedSizeMulti(n, 1)];
+    let keys = [BrotliEncoderParameter::BROTLI_PARAM_QUALITY, BrotliEncoderParameter::BROTLI_PARAM_LGWIN];
+    let vals = [quality, lgwin];
+    let mut osz = out.len();
+    let mut ops = [ses.opaque(0)];
+    let r = unsafe { BrotliEncoderCompressMulti(2, keys.as_ptr(), vals.as_ptr(), input.len(), input.as_ptr(), &mut osz, out.as_mut_ptr(), 1, Some(ffi_alloc), Some(ffi_free), ops.as_mut_ptr()) };
+    assert!(r == 1);
+    let (cnt, bytes) = ses.live();
+    let g = ses.st.lock().unwrap();
+    let r = (cnt, bytes, g.n_alloc, g.n_free);
+    drop(g);
+    ses.reclaim();
+    r
+}
+
+pub fn d9_oneshot_q10() -> String {
+    let (mut m8, led_m8) = CAlloc::new();
+    let (empty, led_empty) = CAlloc::new();
+    let input = sample_text(3000);
+    let mut out = vec![0u8; 4000];
+    let mut osz = out.len();
+    let r = brotli::enc::encode::BrotliEncoderCompress(empty, &mut m8, 10, 18, brotli::enc::backward_references::BrotliEncoderMode::BROTLI_MODE_GENERIC, input.len(), &input, &mut osz, &mut out, &mut |_a, _b, _c, _d| ());
+    format!("ret={} m8(id {}): alloc/free/foreign/dropped={:?} live={} | empty_m8(id {}): {:?} live={}", r, led_m8.id(), led_m8.counts(), led_m8.live_count(), led_empty.id(), led_empty.counts(), led_empty.live_count())
+}
+
+pub fn d9_set_dict_twice() -> String {
+    let (a, led) = CAlloc::new();
+    let mut s = BrotliEncoderStateStruct::new(a);
+    s.set_parameter(BrotliEncoderParameter::BROTLI_PARAM_QUALITY, 5);
+    s.set_parameter(BrotliEncoderParameter::BROTLI_PARAM_LGWIN, 16);
+    let d = sample_text(500);
+    s.set_custom_dictionary(d.len(), &d);
+    let c1 = led.counts();
+    s.set_custom_dictionary(d.len(), &d);
+    let c2 = led.counts();
+    brotli::enc::encode::BrotliEncoderDestroyInstance(&mut s);
+    format!("after 1st: {:?}; after 2nd: {:?}; after destroy: {:?} live={}", c1, c2, led.counts(), led.live_count())
+}
+
+pub fn d9_ffi_default() {
+    use brotli::ffi::compressor::*;
+    let input = sample_text(100000);
+    let mut out = vec![0u8; 101024];
+    unsafe {
+        let st = BrotliEncoderCreateInstance(None, None, core::ptr::null_mut());
+        BrotliEncoderSetParameter(st, BrotliEncoderParameter::BROTLI_PARAM_QUALITY, 5);
+        let mut avail_in = input.len();
+        let mut next_in = input.as_ptr();
+        let mut avail_out = out.len();
+        let mut next_out = out.as_mut_ptr();
+        let mut total = 0usize;
+        let r = BrotliEncoderCompressStream(st, BrotliEncoderOperation::BROTLI_OPERATION_FINISH, &mut avail_in, &mut next_in, &mut avail_out, &mut next_out, &mut total);
+        assert!(r == 1);
+        println!("-- default allocator destroy begins");
+        BrotliEncoderDestroyInstance(st);
+        println!("-- default allocator destroy ends");
+    }
+}
+
+fn run_d9() {
+    if std::env::var("D9_DEFAULT").is_ok() { d9_ffi_default(); return; }
+    for (q, w) in [(5u32, 22u32), (11, 22), (0, 22), (1, 22), (9, 16)] {
+        let (cnt, bytes, na, nf) = d9_ffi_stream(q, w, 100000);
+        println!("ffi create/stream/destroy q{} lgwin{}: alloc calls {}, free calls {}, live after destroy: {} blocks, {} bytes", q, w, na, nf, cnt, bytes);
+    }
+    for (q, w) in [(5u32, 22u32), (11, 22)] {
+        let (cnt, bytes, na, nf) = d9_ffi_multi1(q, w, 100000);
+        println!("ffi BrotliEncoderCompressMulti 1 thread q{} lgwin{}: alloc calls {}, free calls {}, live after return: {} blocks, {} bytes", q, w, na, nf, cnt, bytes);
+    }
+    println!("rust one-shot q10: {}", d9_oneshot_q10());
+    println!("set_custom_dictionary twice: {}", d9_set_dict_twice());
+}
+
+
+// ---------------------------------------------------------------------------------------------
+// field snapshot + per-call classification (ScopedBalanced oracle, site events for the model)
+// ---------------------------------------------------------------------------------------------
+
+/// slots: 0 storage_, 1 commands_, 2 ringbuffer_.data_mo, 3 hasher_ (sub-blocks), 4 large_table_,
+/// 5 command_buf_, 6 literal_buf_, 7 ext (a pre-computed hasher held by the caller), 8 self (C-ABI state block)
+pub const NSLOT: usize = 9;
+#[derive(Clone, Debug)]
+pub struct FB { pub slot: usize, pub ptr: usize, pub bytes: usize, pub len: usize }
+fn fbp<T>(slot: usize, s: &[T], out: &mut Vec<FB>) {
+    if !s.is_empty() { out.push(FB { slot, ptr: s.as_ptr() as usize, bytes: s.len() * core::mem::size_of::<T>(), len: s.len() }); }
+}
+pub fn hasher_blocks<A: Allocator<u16> + Allocator<u32>>(h: &UnionHasher<A>, slot: usize, v: &mut Vec<FB>) {
+    match h {
+        UnionHasher::Uninit => {}
+        UnionHasher::H2(h) => fbp(slot, h.buckets_.buckets_.slice(), v),
+        UnionHasher::H3(h) => fbp(slot, h.buckets_.buckets_.slice(), v),
+        UnionHasher::H4(h) => fbp(slot, h.buckets_.buckets_.slice(), v),
+        UnionHasher::H54(h) => fbp(slot, h.buckets_.buckets_.slice(), v),
+        UnionHasher::H5(h) => { fbp(slot, h.num.slice(), v); fbp(slot, h.buckets.slice(), v); }
+        UnionHasher::H5q7(h) => { fbp(slot, h.num.slice(), v); fbp(slot, h.buckets.slice(), v); }
+        UnionHasher::H5q5(h) => { fbp(slot, h.num.slice(), v); fbp(slot, h.buckets.slice(), v); }
+        UnionHasher::H6(h) => { fbp(slot, h.num.slice(), v); fbp(slot, h.buckets.slice(), v); }
+        UnionHasher::H9(h) => { fbp(slot, h.num_.slice(), v); fbp(slot, h.buckets_.slice(), v); }
+        UnionHasher::H10(h) => { fbp(slot, h.buckets_.slice(), v); fbp(slot, h.forest.slice(), v); }
+    }
+}
+pub fn snapshot<A: BrotliAlloc>(s: &BrotliEncoderStateStruct<A>) -> Vec<FB> {
+    let mut v = vec![];
+    fbp(0, s.storage_.slice(), &mut v);
+    fbp(1, s.commands_.slice(), &mut v);
+    fbp(2, s.ringbuffer_.data_mo.slice(), &mut v);
+    hasher_blocks(&s.hasher_, 3, &mut v);
+    fbp(4, s.large_table_.slice(), &mut v);
+    fbp(5, s.command_buf_.slice(), &mut v);
+    fbp(6, s.literal_buf_.slice(), &mut v);
+    v
+}
+pub type Live = Vec<(u64, usize, usize)>; // serial, ptr, bytes
+impl Ledger {
+    pub fn live_view(&self) -> Live { self.0.lock().unwrap().live.iter().map(|(k, b)| (*k, b.ptr, b.len * b.esz)).collect() }
+    pub fn dropped_since(&self, k: usize) -> Vec<u64> { self.0.lock().unwrap().events[k..].iter().filter(|e| e.kind == 'D').map(|e| e.bid).collect() }
+}
+impl FfiSession {
+    pub fn live_view(&self) -> Live { self.st.lock().unwrap().live.iter().map(|(p, v)| (v.2, *p, v.1)).collect() }
+}
+pub struct Obs { pub fields: Vec<FB>, pub live: Live, pub allocs: u64, pub frees: u64, pub foreign: u64, pub dropped: Vec<u64>, pub ss: usize, pub ca: usize }
+
+pub struct Tracker { held: Vec<Vec<u64>>, a0: u64, f0: u64 }
+pub struct StepOut { pub tok: String, pub ans: String, pub viol: Vec<(String, String)> }
+impl Tracker {
+    pub fn new() -> Tracker { Tracker { held: vec![vec![]; NSLOT], a0: 0, f0: 0 } }
+    /// `unref_ok`: a slot whose old block is still live but no longer referenced is reported in the token
+    /// (fate 'D') and is a violation unless the caller files it under a named defect
+    pub fn step(&mut self, o: &Obs) -> StepOut {
+        let mut viol = vec![];
+        let byptr: HashMap<usize, (u64, usize)> = o.live.iter().map(|(s, p, b)| (*p, (*s, *b))).collect();
+        let mut newh: Vec<Vec<u64>> = vec![vec![]; NSLOT];
+        let mut lens: Vec<Vec<usize>> = vec![vec![]; NSLOT];
+        for f in &o.fields {
+            match byptr.get(&f.ptr) {
+                Some((s, b)) if *b == f.bytes => { newh[f.slot].push(*s); lens[f.slot].push(f.len); }
+                _ => viol.push(("ledger:field-not-live".to_string(), format!("slot {} holds {} bytes at {:#x} which the allocator does not list as live", f.slot, f.bytes, f.ptr))),
+            }
+        }
+        let old_all: std::collections::HashSet<u64> = self.held.iter().flatten().cloned().collect();
+        let new_all: std::collections::HashSet<u64> = newh.iter().flatten().cloned().collect();
+        let live_all: std::collections::HashSet<u64> = o.live.iter().map(|x| x.0).collect();
+        let dropped: std::collections::HashSet<u64> = o.dropped.iter().cloned().collect();
+        let stray: Vec<&(u64, usize, usize)> = o.live.iter().filter(|x| !new_all.contains(&x.0)).collect();
+        let mut toks = vec![];
+        let mut new_count = 0u64;
+        let mut freed_gone = 0u64;
+        for s in 0..NSLOT {
+            let (old, new) = (&self.held[s], &newh[s]);
+            if old == new { toks.push("=".to_string()); continue; }
+            let fate = if old.is_empty() { '-' }
+                else if old.iter().all(|x| new_all.contains(x)) { 'M' }
+                else if old.iter().all(|x| !live_all.contains(x) && !dropped.contains(x)) { 'F' }
+                else { 'D' }; // dropped without free_cell, or still live but unreferenced
+            let kind = if new.is_empty() { "-".to_string() }
+                else if new.iter().all(|x| old_all.contains(x)) { "T".to_string() }
+                else { format!("N{}", lens[s].iter().map(|l| l.to_string()).collect::<Vec<_>>().join("+")) };
+            toks.push(format!("{}{}", fate, kind));
+        }
+        for x in new_all.iter() { if !old_all.contains(x) { new_count += 1; } }
+        for x in old_all.iter() { if !live_all.contains(x) && !dropped.contains(x) { freed_gone += 1; } }
+        let da = o.allocs - self.a0;
+        let df = o.frees - self.f0;
+        let sa = da as i64 - new_count as i64;
+        let sf = df as i64 - freed_gone as i64;
+        // stray = live but not held. Old blocks that lost their reference are reported through fate 'D';
+        // anything else is a temporary that outlived the call.
+        let stray_new: Vec<String> = stray.iter().filter(|x| !old_all.contains(&x.0)).map(|x| format!("#{}:{}B", x.0, x.2)).collect();
+        if !stray_new.is_empty() || sa != sf {
+            viol.push(("ledger:scoped-unbalanced".to_string(), format!("after the call {} block(s) are live outside the long-lived fields [{}]; temporaries allocated {} freed {}", stray_new.len(), stray_new.join(" "), sa, sf)));
+        }
+        self.held = newh;
+        self.a0 = o.allocs;
+        self.f0 = o.frees;
+        let outstanding = o.allocs as i64 - o.frees as i64 - o.foreign as i64;
+        StepOut { tok: format!("{},s{}/{}", toks.join(","), sa, sf), ans: format!("o{}a{}f{}x{}s{}c{}", outstanding, o.allocs, o.frees, o.foreign, o.ss, o.ca), viol }
+    }
+}
+
+// ---------------------------------------------------------------------------------------------
+// streaming instances (Rust API with CAlloc, C ABI with counting callbacks)
+// ---------------------------------------------------------------------------------------------
+
+pub trait Inst {
+    fn set_param(&mut self, p: BrotliEncoderParameter, v: u32);
+    fn set_dict(&mut self, d: &[u8]);
+    fn compress(&mut self, op: u32, input: &[u8], out_cap: usize) -> (bool, usize, usize);
+    fn take_output(&mut self, max: usize) -> usize;
+    fn observe(&mut self) -> Obs;
+    fn finished(&self) -> bool;
+}
+fn op_of(op: u32) -> BrotliEncoderOperation {
+    match op { 0 => BrotliEncoderOperation::BROTLI_OPERATION_PROCESS, 1 => BrotliEncoderOperation::BROTLI_OPERATION_FLUSH, 2 => BrotliEncoderOperation::BROTLI_OPERATION_FINISH, _ => BrotliEncoderOperation::BROTLI_OPERATION_EMIT_METADATA }
+}
+pub struct RustInst { pub s: BrotliEncoderStateStruct<CAlloc>, pub led: Ledger, pub ext: UnionHasher<CAlloc>, ev0: usize, pub ir_calls: u64 }
+impl RustInst {
+    pub fn new() -> RustInst { let (a, led) = CAlloc::new(); RustInst { s: BrotliEncoderStateStruct::new(a), led, ext: UnionHasher::Uninit, ev0: 0, ir_calls: 0 } }
+    /// a pre-computed hasher made by the caller with the instance's own allocator (what CompressMulti does)
+    pub fn make_ext_hasher(&mut self) {
+        let mut p = self.s.params.clone();
+        brotli::enc::encode::SanitizeParams(&mut p);
+        brotli::enc::encode::HasherSetup(&mut self.s.m8, &mut self.ext, &mut p, &[], 0, 0, 0);
+    }
+    pub fn set_dict_with_ext(&mut self, d: &[u8]) {
+        let h = core::mem::replace(&mut self.ext, UnionHasher::Uninit);
+        self.s.set_custom_dictionary_with_optional_precomputed_hasher(d.len(), d, h);
+    }
+    pub fn destroy(&mut self) { brotli::enc::encode::BrotliEncoderDestroyInstance(&mut self.s); }
+}
+impl Inst for RustInst {
+    fn set_param(&mut self, p: BrotliEncoderParameter, v: u32) { self.s.set_parameter(p, v); }
+    fn set_dict(&mut self, d: &[u8]) { self.s.set_custom_dictionary(d.len(), d); }
+    fn compress(&mut self, op: u32, input: &[u8], out_cap: usize) -> (bool, usize, usize) {
+        let mut out = vec![0u8; out_cap];
+        let (mut ai, mut io, mut ao, mut oo) = (input.len(), 0usize, out_cap, 0usize);
+        let mut ir = 0u64;
+        let r = self.s.compress_stream(op_of(op), &mut ai, input, &mut io, &mut ao, &mut out, &mut oo, &mut None, &mut |_a, _b, _c, _d| { ir += 1; });
+        self.ir_calls += ir;
+        (r, io, oo)
+    }
+    fn take_output(&mut self, max: usize) -> usize { let mut sz = max; self.s.take_output(&mut sz).len().min(sz) }
+    fn observe(&mut self) -> Obs {
+        let mut fields = snapshot(&self.s);
+        hasher_blocks(&self.ext, 7, &mut fields);
+        let (a, f, x, _d) = self.led.counts();
+        let dropped = self.led.dropped_since(self.ev0);
+        self.ev0 = self.led.events_len();
+        // a block dropped without free_cell left the allocator's books through CBlock::drop; for the
+        // outstanding count it is still owed to the allocator, so it is NOT added to `frees`
+        Obs { fields, live: self.led.live_view(), allocs: a, frees: f, foreign: x / 2, dropped, ss: self.s.storage_size_, ca: self.s.cmd_alloc_size_ }
+    }
+    fn finished(&self) -> bool { self.s.is_finished() }
+}
+pub struct FfiInst { pub st: *mut brotli::ffi::compressor::BrotliEncoderState, pub ses: FfiSession }
+impl FfiInst {
+    pub fn new() -> FfiInst {
+        let ses = FfiSession::new(1);
+        let st = unsafe { brotli::ffi::compressor::BrotliEncoderCreateInstance(Some(ffi_alloc), Some(ffi_free), ses.opaque(0)) };
+        FfiInst { st, ses }
+    }
+    pub fn destroy(&mut self) { unsafe { brotli::ffi::compressor::BrotliEncoderDestroyInstance(self.st) }; self.st = core::ptr::null_mut(); }
+}
+fn ffi_op(op: u32) -> brotli::ffi::compressor::BrotliEncoderOperation {
+    use brotli::ffi::compressor::BrotliEncoderOperation as O;
+    match op { 0 => O::BROTLI_OPERATION_PROCESS, 1 => O::BROTLI_OPERATION_FLUSH, 2 => O::BROTLI_OPERATION_FINISH, _ => O::BROTLI_OPERATION_EMIT_METADATA }
+}
+impl Inst for FfiInst {
+    fn set_param(&mut self, p: BrotliEncoderParameter, v: u32) { unsafe { brotli::ffi::compressor::BrotliEncoderSetParameter(self.st, p, v) }; }
+    fn set_dict(&mut self, d: &[u8]) { unsafe { brotli::ffi::compressor::BrotliEncoderSetCustomDictionary(self.st, d.len(), d.as_ptr()) }; }
+    fn compress(&mut self, op: u32, input: &[u8], out_cap: usize) -> (bool, usize, usize) {
+        let mut out = vec![0u8; out_cap.max(1)];
+        let (mut ai, mut ao) = (input.len(), out_cap);
+        let mut ip = input.as_ptr();
+        let mut opp = out.as_mut_ptr();
+        let mut total = 0usize;
+        let r = unsafe { brotli::ffi::compressor::BrotliEncoderCompressStream(self.st, ffi_op(op), &mut ai, &mut ip, &mut ao, &mut opp, &mut total) };
+        (r == 1, input.len() - ai, out_cap - ao)
+    }
+    fn take_output(&mut self, max: usize) -> usize { let mut sz = max; unsafe { brotli::ffi::compressor::BrotliEncoderTakeOutput(self.st, &mut sz) }; sz }
+    fn observe(&mut self) -> Obs {
+        let mut fields = vec![];
+        let (mut ss, mut ca) = (0, 0);
+        if !self.st.is_null() {
+            let c = unsafe { &(*self.st).compressor };
+            fields = snapshot(c);
+            ss = c.storage_size_;
+            ca = c.cmd_alloc_size_;
+            fields.push(FB { slot: 8, ptr: self.st as usize, bytes: core::mem::size_of::<brotli::ffi::compressor::BrotliEncoderState>(), len: 1 });
+        }
+        let g = self.ses.st.lock().unwrap();
+        let (a, f) = (g.n_alloc, g.n_free);
+        drop(g);
+        Obs { fields, live: self.ses.live_view(), allocs: a, frees: f, foreign: 0, dropped: vec![], ss, ca }
+    }
+    fn finished(&self) -> bool { unsafe { brotli::ffi::compressor::BrotliEncoderIsFinished(self.st) == 1 } }
+}
+
+pub fn gen_input(r: &mut Rng, n: usize) -> Vec<u8> {
+    let mut v = Vec::with_capacity(n + 16);
+    match r.below(5) {
+        0 => { while v.len() < n { v.push(r.next() as u8); } }                      // incompressible
+        1 => { v.resize(n, 0); }                                                    // zeros
+        2 => { let w = 1 + r.below(300) as usize; let pat: Vec<u8> = (0..w).map(|_| r.next() as u8).collect(); while v.len() < n { v.extend_from_slice(&pat); } } // periodic
+        _ => { let words: [&[u8]; 10] = [b"the ", b"quick ", b"brown ", b"fox ", b"jumps ", b"over ", b"a ", b"lazy ", b"dog. ", b"\n"]; while v.len() < n { v.extend_from_slice(words[r.below(10) as usize]); if r.chance(1, 40) { v.push(r.next() as u8); } } }
+    }
+    v.truncate(n);
+    v
+}
+
+#[derive(Clone, Debug)]
+pub struct Cfg { pub q: u32, pub lgwin: u32, pub catable: bool, pub appendable: bool, pub magic: bool, pub log_mb: bool, pub large: bool, pub size_hint: u32, pub lgblock: u32, pub dict: usize, pub prehash: bool, pub middict: bool, pub favor: bool }
+impl Cfg {
+    pub fn gen(r: &mut Rng, thorough: bool) -> Cfg {
+        let q = if r.chance(1, 3) { *r.pick(&[0u32, 1, 1, 10, 11]) } else { r.below(12) as u32 };
+        let mut lgwin = match r.below(10) { 0 => 10, 1 => 22, 2 | 3 => 17 + r.below(2) as u32, _ => 10 + r.below(10) as u32 };
+        if q >= 10 && lgwin > 18 && !thorough { lgwin = 18; }
+        let dict = if r.chance(1, 3) { *r.pick(&[1usize, 2, 17, 500, 5000, 70000]) } else { 0 };
+        Cfg { q, lgwin, catable: r.chance(1, 5), appendable: r.chance(1, 5), magic: r.chance(1, 8), log_mb: r.chance(1, 6), large: r.chance(1, 16), size_hint: if r.chance(1, 4) { *r.pick(&[1u32, 1000, 1 << 20, 1 << 22]) } else { 0 }, lgblock: if r.chance(1, 6) { 16 + r.below(9) as u32 } else { 0 }, dict, prehash: dict > 0 && r.chance(1, 3), middict: r.chance(1, 24), favor: r.chance(1, 2) }
+    }
+    pub fn apply<I: Inst>(&self, i: &mut I) {
+        use BrotliEncoderParameter::*;
+        i.set_param(BROTLI_PARAM_QUALITY, self.q);
+        i.set_param(BROTLI_PARAM_LGWIN, self.lgwin);
+        if self.lgblock != 0 { i.set_param(BROTLI_PARAM_LGBLOCK, self.lgblock); }
+        if self.catable { i.set_param(BROTLI_PARAM_CATABLE, 1); }
+        if self.appendable { i.set_param(BROTLI_PARAM_APPENDABLE, 1); }
+        if self.magic { i.set_param(BROTLI_PARAM_MAGIC_NUMBER, 1); }
+        if self.log_mb { i.set_param(BROTLI_METABLOCK_CALLBACK, 1); }
+        if self.large { i.set_param(BROTLI_PARAM_LARGE_WINDOW, 1); }
+        if self.size_hint != 0 { i.set_param(BROTLI_PARAM_SIZE_HINT, self.size_hint); }
+    }
+    pub fn json(&self) -> String { format!("{{\"q\":{},\"lgwin\":{},\"catable\":{},\"appendable\":{},\"magic\":{},\"log_mb\":{},\"large\":{},\"size_hint\":{},\"lgblock\":{},\"dict\":{},\"prehash\":{},\"middict\":{}}}", self.q, self.lgwin, self.catable, self.appendable, self.magic, self.log_mb, self.large, self.size_hint, self.lgblock, self.dict, self.prehash, self.middict) }
+    pub fn budget(&self, thorough: bool) -> usize { let m = if thorough { 4 } else { 1 }; m * match self.q { 10 | 11 => 40_000, 5..=9 => 300_000, _ => 700_000 } }
+}
+
+struct Scn { toks: Vec<String>, ans: Vec<String>, calls: u64, failed: u64, grew: [u64; NSLOT] }
+fn record(t: &mut Tracker, name: &str, o: &Obs, sc: &mut Scn, rep: &mut Report, case: &str, allow_unref: Option<&str>) {
+    let so = t.step(o);
+    for (i, d) in so.tok.split(',').enumerate() { if i < NSLOT && d != "=" { sc.grew[i] += 1; } }
+    for (sig, what) in so.viol { rep.violation(&sig, &what, case.to_string()); }
+    // an old field block that lost its reference without being freed
+    let unref: Vec<usize> = so.tok.split(',').enumerate().filter(|(i, d)| *i < NSLOT && d.starts_with('D')).map(|x| x.0).collect();
+    if !unref.is_empty() {
+        match allow_unref { Some(sig) => rep.violation(sig, &format!("op {}: slot(s) {:?}: the old block(s) were overwritten or abandoned without free_cell", name, unref), case.to_string()), None => rep.violation("ledger:field-block-lost", &format!("op {}: slot(s) {:?} lost their block without free_cell", name, unref), case.to_string()) }
+    }
+    sc.toks.push(format!("{}:{}", name, so.tok));
+    sc.ans.push(so.ans);
+}
+
+/// one streaming history; returns (request line, implementation answer)
+fn run_history<I: Inst>(inst: &mut I, kind: &str, cfg: &Cfg, r: &mut Rng, thorough: bool, rep: &mut Report, case: &str, rust: Option<&mut dyn FnMut(&mut I, &str, &[u8])>) -> (Tracker, Scn, Vec<u8>) {
+    let mut t = Tracker::new();
+    let mut sc = Scn { toks: vec![], ans: vec![], calls: 0, failed: 0, grew: [0; NSLOT] };
+    let mut rust = rust;
+    let o = inst.observe();
+    record(&mut t, "cr", &o, &mut sc, rep, case, None);
+    cfg.apply(inst);
+    let dict = gen_input(r, cfg.dict);
+    if cfg.dict > 0 {
+        if cfg.prehash && rust.is_some() {
+            (rust.as_mut().unwrap())(inst, "mk", &[]);
+            let o = inst.observe();
+            record(&mut t, "mk", &o, &mut sc, rep, case, None);
+            (rust.as_mut().unwrap())(inst, "sdh", &dict);
+            let o = inst.observe();
+            record(&mut t, "sdh", &o, &mut sc, rep, case, None);
+        } else {
+            inst.set_dict(&dict);
+            let o = inst.observe();
+            record(&mut t, "sd", &o, &mut sc, rep, case, None);
+        }
+    }
+    let budget = cfg.budget(thorough);
+    let total = match r.below(6) { 0 => 0, 1 => r.below(200) as usize, 2 => (1usize << 17) + r.below(70000) as usize, _ => r.below(budget as u64) as usize }.min(budget);
+    let data = gen_input(r, total);
+    let mut pos = 0usize;
+    let ncalls = 1 + r.below(if thorough { 40 } else { 14 });
+    let stop_early = r.chance(1, 3);
+    let mut k = 0;
+    while k < ncalls {
+        k += 1;
+        if cfg.middict && k == 2 {
+            let d2 = gen_input(r, 300);
+            inst.set_dict(&d2);
+            let o = inst.observe();
+            record(&mut t, "sd", &o, &mut sc, rep, case, Some("ledger:set-dict-drops-hasher"));
+            rep.count("inst.set_dict_on_live_instance");
+        }
+        let left = data.len() - pos;
+        let mut op = match r.below(10) { 0 | 1 => 1, 2 => 2, 3 => 3, _ => 0 };
+        if k == ncalls && !stop_early { op = 2; }
+        if op == 3 {
+            // metadata: small body, ample room, repeat until consumed (bounded)
+            let bl = r.below(40) as usize;
+            let body = gen_input(r, bl);
+            let mut off = 0;
+            for _ in 0..6 {
+                let (ok, c, _p) = inst.compress(3, &body[off..], 4096);
+                sc.calls += 1;
+                if !ok { sc.failed += 1; }
+                off += c;
+                let o = inst.observe();
+                record(&mut t, "cs", &o, &mut sc, rep, case, None);
+                if !ok || off >= body.len() { break; }
+            }
+            continue;
+        }
+        let chunk = if op == 2 && !r.chance(1, 4) { left } else { match r.below(8) { 0 => 0, 1 => 1 + r.below(100) as usize, 2 => (1 << 14) + r.below(3) as usize, 3 => (1 << 16) + r.below(3) as usize, 4 => (1 << 17) + r.below(5) as usize, _ => r.below(left as u64 + 1) as usize } }.min(left);
+        let cap = match r.below(8) { 0 => 0, 1 => 1, 2 => 2 + r.below(20) as usize, 3 => 4096, _ => 2 * chunk + 1024 };
+        let (ok, c, _p) = inst.compress(op, &data[pos..pos + chunk], cap);
+        sc.calls += 1;
+        if !ok { sc.failed += 1; rep.count("inst.call_returned_false"); }
+        pos += c;
+        let o = inst.observe();
+        record(&mut t, "cs", &o, &mut sc, rep, case, None);
+        if r.chance(1, 10) {
+            inst.take_output(if r.chance(1, 2) { 0 } else { 1 + r.below(50) as usize });
+            let o = inst.observe();
+            record(&mut t, "cs", &o, &mut sc, rep, case, None);
+        }
+        if inst.finished() {
+            rep.count("inst.finished");
+            if r.chance(1, 3) {
+                // a call after the end of the stream (with input it must fail, without it is a no-op)
+                let extra = if r.chance(1, 2) { vec![1u8, 2, 3] } else { vec![] };
+                let (ok, _c, _p) = inst.compress(r.below(3) as u32, &extra, 100);
+                sc.calls += 1;
+                if !ok { sc.failed += 1; rep.count("inst.call_after_finish_failed"); }
+                let o = inst.observe();
+                record(&mut t, "cs", &o, &mut sc, rep, case, None);
+            }
+            break;
+        }
+    }
+    if !inst.finished() { rep.count("inst.destroyed_before_finish"); }
+    (t, sc, data)
+}
+
+fn count_growth(sc: &Scn, rep: &mut Report, pfx: &str) {
+    const N: [&str; NSLOT] = ["storage", "commands", "ring", "hasher", "table", "cbuf", "lbuf", "ext", "self"];
+    for i in 0..NSLOT { if sc.grew[i] > 0 { rep.add(&format!("{}.slot_changed.{}", pfx, N[i]), sc.grew[i]); } if sc.grew[i] > 1 && i < 7 { rep.count(&format!("{}.slot_replaced.{}", pfx, N[i])); } }
+}
+
+fn rust_instance_case(seed: u64, thorough: bool) -> (Vec<(String, String)>, Report) {
+    let mut rep = Report::default();
+    let mut r = Rng::new(seed);
+    let cfg = Cfg::gen(&mut r, thorough);
+    let case = format!("{{\"engine\":\"ledger\",\"kind\":\"rust-inst\",\"seed\":{},\"cfg\":{}}}", seed, cfg.json());
+    let mut lines = vec![];
+    let res = std::panic::catch_unwind(std::panic::AssertUnwindSafe(|| {
+        let mut inst = RustInst::new();
+        let mut hook = |i: &mut RustInst, what: &str, d: &[u8]| { if what == "mk" { i.make_ext_hasher(); } else { i.set_dict_with_ext(d); } };
+        let (mut t, mut sc, _data) = run_history(&mut inst, "rust", &cfg, &mut r, thorough, &mut rep, &case, Some(&mut hook));
+        inst.destroy();
+        let o = inst.observe();
+        record(&mut t, "cl", &o, &mut sc, &mut rep, &case, None);
+        let led = inst.led.clone();
+        let ir = inst.ir_calls;
+        drop(inst);
+        let (a, f, x, d) = led.counts();
+        if led.live_count() != 0 || d != 0 {
+            // blocks that were already reported as lost by a set-dict on a live instance are not reported twice
+            let known = cfg.middict;
+            if !known || led.live_count() != 0 { rep.violation("ledger:rust-inst-leak", &format!("after BrotliEncoderDestroyInstance + drop: {} live, {} dropped without free_cell (alloc {}, free {})", led.live_count(), d, a, f), case.clone()); }
+        }
+        if x != 0 { rep.violation("ledger:rust-inst-foreign", &format!("{} frees went through another allocator instance", x), case.clone()); }
+        rep.evaluations += 1;
+        if a > 0 && sc.calls > 0 { rep.nontrivial += 1; }
+        rep.add("inst.rust.calls", sc.calls);
+        rep.add("inst.rust.allocs", a);
+        if ir > 0 { rep.count("inst.rust.ir_callback_ran"); }
+        rep.count(&format!("inst.rust.q{}", cfg.q));
+        if cfg.dict > 0 { rep.count(if cfg.prehash { "inst.rust.dict_precomputed_hasher" } else { "inst.rust.dict" }); }
+        count_growth(&sc, &mut rep, "inst.rust");
+        (format!("ledger inst rust {} {}", cfg.q, sc.toks.join(" ")), sc.ans.join(" "))
+    }));
+    match res { Ok(l) => lines.push(l), Err(_) => { rep.count("inst.rust.panic"); rep.violation("ledger:panic", "panic inside a streaming history (blocks held by the instance are lost)", case) } }
+    (lines, rep)
+}
+
+fn ffi_instance_case(seed: u64, thorough: bool) -> (Vec<(String, String)>, Report) {
+    let mut rep = Report::default();
+    let mut r = Rng::new(seed);
+    let mut cfg = Cfg::gen(&mut r, thorough);
+    cfg.prehash = false;
+    cfg.log_mb = false; // the C ABI has no callback
+    let case = format!("{{\"engine\":\"ledger\",\"kind\":\"ffi-inst\",\"seed\":{},\"cfg\":{}}}", seed, cfg.json());
+    let mut lines = vec![];
+    let res = std::panic::catch_unwind(std::panic::AssertUnwindSafe(|| {
+        let mut inst = FfiInst::new();
+        let (mut t, mut sc, _data) = run_history(&mut inst, "ffi", &cfg, &mut r, thorough, &mut rep, &case, None);
+        let before = inst.observe();
+        let held = before.fields.iter().filter(|f| f.slot < 7).count();
+        let held_bytes: usize = before.fields.iter().filter(|f| f.slot < 7).map(|f| f.bytes).sum();
+        inst.destroy();
+        let o = inst.observe();
+        // the destroy function is where D9 shows: the tracker files unreferenced live blocks under the named defect
+        record(&mut t, "fd", &o, &mut sc, &mut rep, &case, Some("ledger:ffi-destroy-leak"));
+        let (live, bytes) = inst.ses.live();
+        let g = inst.ses.st.lock().unwrap();
+        let (a, f, bad) = (g.n_alloc, g.n_free, g.bad_free.clone());
+        drop(g);
+        for b in bad { rep.violation("ledger:ffi-bad-free", &b, case.clone()); }
+        if live != 0 && held == 0 { rep.violation("ledger:ffi-inst-leak", &format!("{} blocks / {} bytes live after destroy although no field held a block", live, bytes), case.clone()); }
+        rep.evaluations += 1;
+        if a > 1 && sc.calls > 0 { rep.nontrivial += 1; }
+        rep.add("inst.ffi.calls", sc.calls);
+        rep.add("inst.ffi.allocs", a);
+        rep.add("inst.ffi.bytes_never_freed", bytes as u64);
+        let _ = (f, held_bytes);
+        rep.count(&format!("inst.ffi.q{}", cfg.q));
+        count_growth(&sc, &mut rep, "inst.ffi");
+        inst.ses.reclaim();
+        (format!("ledger inst ffi {} {}", cfg.q, sc.toks.join(" ")), sc.ans.join(" "))
+    }));
+    match res { Ok(l) => lines.push(l), Err(_) => { rep.count("inst.ffi.panic"); rep.violation("ledger:panic", "panic inside a C-ABI streaming history", case) } }
+    (lines, rep)
+}
+
+// ---------------------------------------------------------------------------------------------
+// opaque entry points: adapters, copy, one-shot, multi-threaded, C-ABI multi / work pool
+// ---------------------------------------------------------------------------------------------
+
+pub struct FaultyW { pub budget: usize, pub mode: u32, pub got: usize, pub max_per_call: usize }
+impl std::io::Write for FaultyW {
+    fn write(&mut self, b: &[u8]) -> std::io::Result<usize> {
+        if self.got >= self.budget {
+            match self.mode { 1 => return Err(std::io::Error::new(std::io::ErrorKind::Other, "injected write error")), 2 => return Ok(0), _ => {} }
+        }
+        let n = b.len().min(self.max_per_call.max(1));
+        self.got += n;
+        Ok(n)
+    }
+    fn flush(&mut self) -> std::io::Result<()> { if self.mode == 1 && self.got >= self.budget { Err(std::io::Error::new(std::io::ErrorKind::Other, "injected flush error")) } else { Ok(()) } }
+}
+pub struct FaultyR { pub data: Vec<u8>, pub pos: usize, pub fail_at: usize, pub max_per_call: usize, pub interrupted: bool }
+impl std::io::Read for FaultyR {
+    fn read(&mut self, b: &mut [u8]) -> std::io::Result<usize> {
+        if self.pos >= self.fail_at { return Err(std::io::Error::new(std::io::ErrorKind::Other, "injected read error")); }
+        let n = b.len().min(self.max_per_call.max(1)).min(self.data.len() - self.pos).min(self.fail_at - self.pos);
+        b[..n].copy_from_slice(&self.data[self.pos..self.pos + n]);
+        self.pos += n;
+        Ok(n)
+    }
+}
+
+/// judge a set of per-allocator ledgers after an entry point returned; returns the class token
+fn judge(leds: &[Ledger], rep: &mut Report, sig_pfx: &str, case: &str, known_foreign: Option<&str>) -> String {
+    let mut live = 0; let mut foreign = 0; let mut dropped = 0;
+    for l in leds { let (_a, _f, x, d) = l.counts(); live += l.live_count(); foreign += x; dropped += d; }
+    let foreign = foreign / 2; // recorded on both sides
+    let mut cls = vec![];
+    if live > 0 { cls.push("leak"); rep.violation(&format!("{}-leak", sig_pfx), &format!("{} block(s) still live after the entry point returned: {}", live, leds.iter().map(|l| format!("alloc{}:{:?}", l.id(), l.live_blocks().iter().map(|b| format!("{}x{}", tytag(b.1.ty), b.1.len)).collect::<Vec<_>>())).collect::<Vec<_>>().join(" ")), case.to_string()); }
+    if dropped > 0 { cls.push("dropped"); rep.violation(&format!("{}-dropped", sig_pfx), &format!("{} block(s) dropped without free_cell", dropped), case.to_string()); }
+    if foreign > 0 { cls.push("foreign"); rep.violation(known_foreign.unwrap_or(&format!("{}-foreign", sig_pfx)), &format!("{} block(s) were freed through an allocator instance that did not produce them", foreign), case.to_string()); }
+    if cls.is_empty() { "clean".to_string() } else { cls.join("+") }
+}
+/// the event log of a set of ledgers as a request for the Lean spec-side judge
+fn log_line(leds: &[Ledger]) -> Option<(String, String)> {
+    let mut toks = vec![];
+    let (mut out, mut foreign, mut dropped) = (0i64, 0u64, 0u64);
+    for l in leds {
+        let id = l.id();
+        for e in l.events_from(0) {
+            if e.origin != id { continue; }
+            match e.kind { 'A' => { toks.push(format!("A{}.{}", e.origin, e.bid)); out += 1; } 'F' => { toks.push(format!("F{}.{}.{}", e.via, e.origin, e.bid)); out -= 1; } 'X' => { toks.push(format!("F{}.{}.{}", e.via, e.origin, e.bid)); foreign += 1; out -= 1; } _ => { toks.push(format!("D{}.{}", e.origin, e.bid)); dropped += 1; } }
+        }
+    }
+    if toks.is_empty() || toks.len() > 4000 { return None; }
+    // `out` counts blocks still owed to their allocator: never freed (dropped ones included)
+    Some((format!("ledger log {}", toks.join(" ")), format!("owed={} foreign={} dropped={} double=0 unknown=0", out + foreign as i64, foreign, dropped)))
+}
+
+fn adapter_case(seed: u64, thorough: bool) -> (Vec<(String, String)>, Report) {
+    use std::io::{Read, Write};
+    let mut rep = Report::default();
+    let mut r = Rng::new(seed);
+    let q = if r.chance(1, 3) { *r.pick(&[0u32, 1, 10, 11]) } else { r.below(12) as u32 };
+    let lgwin = 10 + r.below(if q >= 10 { 8 } else { 12 }) as u32;
+    let which = r.below(3);
+    let n = match r.below(5) { 0 => 0, 1 => r.below(100) as usize, _ => r.below(if q >= 10 { 30_000 } else { 200_000 }) as usize };
+    let data = gen_input(&mut r, n);
+    let bufsz = *r.pick(&[1usize, 2, 16, 300, 4096, 65536]);
+    let wmode = r.below(4) as u32;
+    let wbudget = if wmode == 0 { usize::MAX } else { r.below(n as u64 / 2 + 50) as usize };
+    let fail_at = if r.chance(1, 3) { r.below(n as u64 + 1) as usize } else { usize::MAX };
+    let fin = r.below(3); // 0 drop, 1 into_inner, 2 drop early
+    let case = format!("{{\"engine\":\"ledger\",\"kind\":\"adapter\",\"seed\":{},\"which\":{},\"q\":{},\"lgwin\":{},\"n\":{},\"bufsz\":{},\"wmode\":{},\"wbudget\":{},\"fail_at\":{},\"fin\":{}}}", seed, which, q, lgwin, n, bufsz, wmode, wbudget as u64, fail_at as u64, fin);
+    let (alloc, led) = CAlloc::new();
+    let mut io_err = false;
+    let name;
+    let res = std::panic::catch_unwind(std::panic::AssertUnwindSafe(|| {
+        match which {
+            0 => {
+                let w = FaultyW { budget: wbudget, mode: wmode, got: 0, max_per_call: *r.pick(&[1usize, 7, 1 << 20]) };
+                let buf = alloc_stdlib::heap_alloc::WrapBox::<u8>::from(vec![0u8; bufsz]);
+                let mut cw = brotli::enc::writer::CompressorWriterCustomAlloc::new(w, buf, alloc, q, lgwin);
+                let mut pos = 0;
+                let limit = if fin == 2 { r.below(n as u64 + 1) as usize } else { n };
+                while pos < limit {
+                    let c = (1 + r.below(70000) as usize).min(limit - pos);
+                    if cw.write_all(&data[pos..pos + c]).is_err() { io_err = true; if r.chance(1, 2) { break; } }
+                    pos += c;
+                    if r.chance(1, 6) { if cw.flush().is_err() { io_err = true; } }
+                }
+                if fin == 1 { let _w = cw.into_inner(); } else { drop(cw); }
+            }
+            1 => {
+                let rd = FaultyR { data: data.clone(), pos: 0, fail_at, max_per_call: *r.pick(&[1usize, 100, 1 << 20]), interrupted: false };
+                let buf = alloc_stdlib::heap_alloc::WrapBox::<u8>::from(vec![0u8; bufsz]);
+                let mut cr = brotli::enc::reader::CompressorReaderCustomAlloc::new(rd, buf, alloc, q, lgwin);
+                let mut out = vec![0u8; 1 + r.below(9000) as usize];
+                let maxreads = if fin == 2 { r.below(6) } else { 1_000_000 };
+                let mut k = 0;
+                while k < maxreads {
+                    k += 1;
+                    match cr.read(&mut out) { Ok(0) => break, Ok(_) => {}, Err(_) => { io_err = true; if r.chance(1, 2) { break; } if k > 50 { break; } } }
+                }
+                if fin == 1 { let _r = cr.into_inner(); } else { drop(cr); }
+            }
+            _ => {
+                let mut rd = FaultyR { data: data.clone(), pos: 0, fail_at, max_per_call: *r.pick(&[1usize, 100, 1 << 20]), interrupted: false };
+                // Ok(0) from the writer makes the copy loop spin (not this property): only error / short-write modes
+                let mut w = FaultyW { budget: wbudget, mode: if wmode == 2 { 1 } else { wmode }, got: 0, max_per_call: *r.pick(&[1usize, 7, 1 << 20]) };
+                let mut params = brotli::enc::BrotliEncoderParams::default();
+                params.quality = q as i32;
+                params.lgwin = lgwin as i32;
+                params.log_meta_block = r.chance(1, 4);
+                params.catable = r.chance(1, 6);
+                let mut ib = vec![0u8; bufsz];
+                let mut ob = vec![0u8; *r.pick(&[1usize, 64, 4096])];
+                if r.chance(1, 3) {
+                    let dl = 1 + r.below(3000) as usize;
+                    let dict = gen_input(&mut r, dl);
+                    let mut cb = |_a: &mut brotli::interface::PredictionModeContextMap<brotli::InputReferenceMut>, _b: &mut [brotli::interface::StaticCommand], _c: brotli::InputPair, _d: &mut CAlloc| ();
+                    let res = brotli::BrotliCompressCustomIoCustomDict(&mut brotli::IoReaderWrapper(&mut rd), &mut brotli::IoWriterWrapper(&mut w), &mut ib, &mut ob, &params, alloc, &mut cb, &dict, std::io::Error::new(std::io::ErrorKind::UnexpectedEof, "eof"));
+                    if res.is_err() { io_err = true; }
+                } else {
+                    let res = brotli::BrotliCompressCustomAlloc(&mut rd, &mut w, &mut ib, &mut ob, &params, alloc);
+                    if res.is_err() { io_err = true; }
+                }
+            }
+        }
+    }));
+    name = match which { 0 => if fin == 1 { "writer-into-inner" } else { "writer-drop" }, 1 => if fin == 1 { "reader-into-inner" } else { "reader-drop" }, _ => "copy" };
+    rep.evaluations += 1;
+    let (a, _f, _x, _d) = led.counts();
+    if a > 0 { rep.nontrivial += 1; }
+    rep.count(&format!("ep.{}{}", name, if io_err { ".io_error" } else { "" }));
+    if fin == 2 && which < 2 { rep.count(&format!("ep.{}.early", name)); }
+    let mut lines = vec![];
+    if res.is_err() {
+        rep.count("ep.adapter.panic");
+        rep.violation("ledger:adapter-panic", &format!("{} panicked; {} block(s) live, counts {:?}", name, led.live_count(), led.counts()), case.clone());
+    } else {
+        let cls = judge(&[led.clone()], &mut rep, &format!("ledger:{}", name), &case, None);
+        lines.push((format!("ledger ep {} q{} err{}", name, q, io_err as u32), cls));
+        if let Some(l) = log_line(&[led]) { lines.push(l); }
+    }
+    let _ = thorough;
+    (lines, rep)
+}
+
+fn oneshot_case(seed: u64, _thorough: bool) -> (Vec<(String, String)>, Report) {
+    let mut rep = Report::default();
+    let mut r = Rng::new(seed);
+    let q = if r.chance(1, 4) { 10 } else { r.below(12) as i32 };
+    let lgwin = 10 + r.below(if q >= 10 { 8 } else { 13 }) as i32;
+    let n = match r.below(5) { 0 => 0, 1 => 1 + r.below(100) as usize, _ => 1 + r.below(if q >= 10 { 30_000 } else { 150_000 }) as usize };
+    let data = gen_input(&mut r, n);
+    let cap = match r.below(5) { 0 => 0, 1 => 1 + r.below(20) as usize, 2 => n / 2, _ => n + 1024 };
+    let case = format!("{{\"engine\":\"ledger\",\"kind\":\"oneshot\",\"seed\":{},\"q\":{},\"lgwin\":{},\"n\":{},\"cap\":{}}}", seed, q, lgwin, n, cap);
+    let (mut m8, l1) = CAlloc::new();
+    let (empty, l2) = CAlloc::new();
+    let mut out = vec![0u8; cap];
+    let mut osz = cap;
+    let res = std::panic::catch_unwind(std::panic::AssertUnwindSafe(|| {
+        brotli::enc::encode::BrotliEncoderCompress(empty, &mut m8, q, lgwin, brotli::enc::backward_references::BrotliEncoderMode::BROTLI_MODE_GENERIC, n, &data, &mut osz, &mut out, &mut |_a, _b, _c, _d| ())
+    }));
+    rep.evaluations += 1;
+    let early = cap == 0 || n == 0;
+    if !early { rep.nontrivial += 1; }
+    rep.count(&format!("ep.oneshot.q{}", q));
+    let mut lines = vec![];
+    match res {
+        Err(_) => { rep.count("ep.oneshot.panic"); rep.violation("ledger:oneshot-panic", "one-shot panicked", case) }
+        Ok(ret) => {
+            if ret == 0 { rep.count("ep.oneshot.failed"); }
+            let cls = judge(&[l1.clone(), l2.clone()], &mut rep, "ledger:oneshot", &case, if q == 10 { Some("ledger:oneshot-q10-foreign-free") } else { None });
+            lines.push((format!("ledger ep oneshot q{} early{}", q, early as u32), cls));
+            if let Some(l) = log_line(&[l1, l2]) { lines.push(l); }
+        }
+    }
+    drop(m8);
+    (lines, rep)
+}
+
+struct VecW(Vec<u8>);
+impl SliceWrapper<u8> for VecW { fn slice(&self) -> &[u8] { &self.0 } }
+
+fn multi_case(seed: u64, _thorough: bool) -> (Vec<(String, String)>, Report) {
+    use brotli::enc::threading::{CompressMultiSlice, Owned, SendAlloc};
+    let mut rep = Report::default();
+    let mut r = Rng::new(seed);
+    let t = if r.chance(1, 4) { *r.pick(&[1usize, 2, 15, 16]) } else { 1 + r.below(16) as usize };
+    let q = if r.chance(1, 6) { *r.pick(&[0i32, 1, 10, 11]) } else { 2 + r.below(8) as i32 };
+    let lgwin = 10 + r.below(if q >= 10 { 7 } else { 11 }) as i32;
+    let n = match r.below(6) { 0 => 0, 1 => r.below(40) as usize, _ => r.below(if q >= 10 { 24_000 } else { 200_000 }) as usize };
+    let data = gen_input(&mut r, n);
+    let variant = r.below(5);
+    let mut params = brotli::enc::BrotliEncoderParams::default();
+    params.quality = q;
+    params.lgwin = lgwin;
+    params.favor_cpu_efficiency = r.chance(1, 2);
+    params.magic_number = r.chance(1, 8);
+    let full = brotli::enc::encode::BrotliEncoderMaxCompressedSizeMulti(n, t);
+    let cap = match r.below(5) { 0 => r.below(full as u64 / 2 + 1) as usize, 1 => 0, _ => full };
+    let case = format!("{{\"engine\":\"ledger\",\"kind\":\"multi\",\"seed\":{},\"variant\":{},\"threads\":{},\"q\":{},\"lgwin\":{},\"favor\":{},\"n\":{},\"cap\":{}}}", seed, variant, t, q, lgwin, params.favor_cpu_efficiency, n, cap);
+    let mut leds = vec![];
+    let mut out = vec![0u8; cap];
+    let res = std::panic::catch_unwind(std::panic::AssertUnwindSafe(|| {
+        macro_rules! allocs { () => { (0..t).map(|_| { let (a, l) = CAlloc::new(); leds.push(l); SendAlloc::new(a, UnionHasher::Uninit) }).collect::<Vec<_>>() } }
+        match variant {
+            0 => { let mut a = allocs!(); brotli::enc::compress_multi_no_threadpool(&params, &mut Owned::new(VecW(data.clone())), &mut out, &mut a[..]).is_ok() }
+            1 => { let mut a = allocs!(); brotli::enc::compress_multi(&params, &mut Owned::new(VecW(data.clone())), &mut out, &mut a[..]).is_ok() }
+            2 => { let mut a = allocs!(); let mut pool = brotli::enc::worker_pool::new_work_pool(t.saturating_sub(1).max(1)); let ok = brotli::enc::worker_pool::compress_worker_pool(&params, &mut Owned::new(VecW(data.clone())), &mut out, &mut a[..], &mut pool).is_ok(); drop(pool); ok }
+            3 => { let mut a = allocs!(); CompressMultiSlice(&params, &data, &mut out, &mut a[..], &mut brotli::enc::multithreading::MultiThreadedSpawner::default()).is_ok() }
+            _ => { let mut a = allocs!(); CompressMultiSlice(&params, &data, &mut out, &mut a[..], &mut brotli::enc::singlethreading::SingleThreadedSpawner::default()).is_ok() }
+        }
+    }));
+    rep.evaluations += 1;
+    rep.count(&format!("ep.multi.variant{}", variant));
+    rep.count(&format!("ep.multi.threads{}", t));
+    if params.favor_cpu_efficiency && t > 1 { rep.count("ep.multi.shared_hasher_cloned"); }
+    let mut lines = vec![];
+    match res {
+        Err(_) => { rep.count("ep.multi.panic"); rep.violation("ledger:multi-panic", &format!("multi-threaded compression panicked; live blocks {}", leds.iter().map(|l| l.live_count()).sum::<usize>()), case) }
+        Ok(ok) => {
+            if !ok { rep.count("ep.multi.error_return"); }
+            if leds.iter().all(|l| l.counts().0 > 0) { rep.nontrivial += 1; }
+            let cls = judge(&leds, &mut rep, "ledger:multi", &case, None);
+            lines.push((format!("ledger ep multi q{} t{} ok{}", q, t, ok as u32), cls));
+            if let Some(l) = log_line(&leds) { lines.push(l); }
+        }
+    }
+    (lines, rep)
+}
+
+fn ffi_multi_case(seed: u64, _thorough: bool) -> (Vec<(String, String)>, Report) {
+    use brotli::ffi::multicompress::*;
+    let mut rep = Report::default();
+    let mut r = Rng::new(seed);
+    let t = if r.chance(1, 3) { 1 } else { 1 + r.below(18) as usize };
+    let q = if r.chance(1, 6) { *r.pick(&[0u32, 1, 10, 11]) } else { 2 + r.below(8) as u32 };
+    let lgwin = 10 + r.below(if q >= 10 { 7 } else { 11 }) as u32;
+    let n = match r.below(6) { 0 => 0, 1 => r.below(40) as usize, _ => r.below(if q >= 10 { 24_000 } else { 150_000 }) as usize };
+    let data = gen_input(&mut r, n);
+    let pool = r.chance(1, 2);
+    let same_opaque = r.chance(1, 4);
+    let full = BrotliEncoderMaxCompressedSizeMulti(n, t.min(16));
+    let cap = match r.below(5) { 0 => r.below(full as u64 / 2 + 1) as usize, _ => full };
+    let case = format!("{{\"engine\":\"ledger\",\"kind\":\"ffi-multi\",\"seed\":{},\"threads\":{},\"q\":{},\"lgwin\":{},\"n\":{},\"cap\":{},\"pool\":{},\"same_opaque\":{}}}", seed, t, q, lgwin, n, cap, pool, same_opaque);
+    let ses = FfiSession::new(t + 1);
+    let keys = [BrotliEncoderParameter::BROTLI_PARAM_QUALITY, BrotliEncoderParameter::BROTLI_PARAM_LGWIN, BrotliEncoderParameter::BROTLI_PARAM_FAVOR_EFFICIENCY];
+    let vals = [q, lgwin, r.below(2) as u32];
+    let mut out = vec![0u8; cap.max(1)];
+    let mut osz = cap;
+    let mut ops: Vec<*mut c_void> = (0..t).map(|i| ses.opaque(if same_opaque { 0 } else { i })).collect();
+    let ret = unsafe {
+        if pool {
+            let wp = BrotliEncoderCreateWorkPool(t.min(16), Some(ffi_alloc), Some(ffi_free), ses.opaque(t));
+            let ret = BrotliEncoderCompressWorkPool(wp, 3, keys.as_ptr(), vals.as_ptr(), n, data.as_ptr(), &mut osz, out.as_mut_ptr(), t, Some(ffi_alloc), Some(ffi_free), ops.as_mut_ptr());
+            BrotliEncoderDestroyWorkPool(wp);
+            ret
+        } else {
+            BrotliEncoderCompressMulti(3, keys.as_ptr(), vals.as_ptr(), n, data.as_ptr(), &mut osz, out.as_mut_ptr(), t, Some(ffi_alloc), Some(ffi_free), ops.as_mut_ptr())
+        }
+    };
+    rep.evaluations += 1;
+    rep.nontrivial += 1;
+    rep.count(if pool { "ep.ffi_workpool" } else { "ep.ffi_multi" });
+    rep.count(&format!("ep.ffi_multi.threads{}", t.min(17)));
+    if ret == 0 { rep.count("ep.ffi_multi.error_return"); }
+    let (live, bytes) = ses.live();
+    let g = ses.st.lock().unwrap();
+    let bad = g.bad_free.clone();
+    drop(g);
+    for b in bad { rep.violation("ledger:ffi-bad-free", &b, case.clone()); }
+    let single = t == 1 && !pool;
+    if live > 0 {
+        rep.add("ep.ffi_multi.bytes_never_freed", bytes as u64);
+        rep.violation(if single { "ledger:ffi-multi1-leak" } else { "ledger:ffi-multi-leak" }, &format!("{} block(s) / {} bytes obtained through alloc_func were never passed to free_func", live, bytes), case.clone());
+    }
+    ses.reclaim();
+    (vec![(format!("ledger ep {} q{} t{}", if pool { "ffi-pool" } else { "ffi-multi" }, q, t), if live > 0 { "leak".to_string() } else { "clean".to_string() })], rep)
+}
+
 pub fn run_cmd(args: &Args) {
-    let corr = Corr::new(&args.out);
-    let rep = Report::default();
+    if args.rest.first().map(|s| s.as_str()) == Some("d9") { run_d9(); return; }
+    let thorough = args.tier == "thorough";
+    let seed = args.seed;
+    let mut corr = Corr::new(&args.out);
+    let mut rep = Report::default();
+    let m = if thorough { 8 } else { 1 };
+    let plan: Vec<(u64, usize)> = vec![(1, 220 * m), (2, 120 * m), (3, 260 * m), (4, 120 * m), (5, 120 * m), (6, 80 * m)];
+    let mut tasks: Vec<(u64, u64)> = vec![];
+    for (kind, n) in &plan { for i in 0..*n { tasks.push((*kind, i as u64)); } }
+    // interleave kinds so that the heavy ones are spread over the threads
+    let tasks = std::sync::Arc::new(tasks);
+    let tk = tasks.clone();
+    let results = par_tasks(tasks.len(), move |i| {
+        let (kind, idx) = tk[i];
+        let s = seed ^ (kind << 56) ^ (idx << 20) ^ 0x1ed9e5;
+        match kind { 1 => rust_instance_case(s, thorough), 2 => ffi_instance_case(s, thorough), 3 => adapter_case(s, thorough), 4 => oneshot_case(s, thorough), 5 => multi_case(s, thorough), _ => ffi_multi_case(s, thorough) }
+    });
+    for (lines, r) in results {
+        for (a, b) in lines { if a.len() < 60000 { corr.case(&a, &b); } }
+        rep.merge(r);
+    }
     corr.finish();
     rep.write(&args.out);
 }
